@@ -220,6 +220,66 @@ func runC03(e *core.Env) error {
 		}
 		w.close()
 	}
+	// ---- EVERY data plan that includes block hashes notices a reorg (a logs-only or receipts-only plan carries no parent
+	// hash and is outside the property's quantifier): one integration of each kind (its plan decides which
+	// requests are made and therefore where a parent hash can come from), indexed to the head, then the last blocks
+	// are replaced and the chain grows
+	kinds := []struct {
+		name string
+		mk   func() config.Integration
+	}{
+		{"trace", func() config.Integration { return traceIG("ig1", "t1") }},
+		{"trace+block_hash", func() config.Integration {
+			return txIG("ig1", "t1", []string{"trace_action_from", "trace_action_to", "trace_action_value", "block_hash", "tx_hash"})
+		}},
+		{"tx", func() config.Integration { return txIG("ig1", "t1", []string{"tx_hash", "block_hash"}) }},
+		{"tx+receipt", func() config.Integration { return txIG("ig1", "t1", []string{"tx_hash", "tx_status", "block_time"}) }},
+		{"logs+header", func() config.Integration { return transferIG("ig1", "t1", []string{"block_time"}, nil) }},
+		{"logs+block", func() config.Integration { return transferIG("ig1", "t1", []string{"tx_input"}, nil) }},
+		{"logs+receipt", func() config.Integration { return transferIG("ig1", "t1", []string{"tx_status", "block_time"}, nil) }},
+	}
+	for ki, kind := range kinds {
+		for rep := 0; rep < e.N(1, 3) && !e.OverBudget(); rep++ {
+			rr := r.Fork()
+			chain := transferChain(6+rr.Intn(3), uint64(1+rr.Intn(1000)))
+			w, err := newWorld(e, chain)
+			if err != nil {
+				return err
+			}
+			if rep%2 == 1 {
+				w.client = jrpc2.New(w.node.URL()).WithMaxReads(2).WithPollDuration(time.Hour)
+			}
+			root := config.Root{Integrations: []config.Integration{kind.mk()}}
+			if err := w.setupRoot(&root); err != nil {
+				w.close()
+				return err
+			}
+			t, err := w.addTask("t1", root.Integrations[0], "src1", 2, 0, 1+rr.Intn(3), 1)
+			if err != nil {
+				w.close()
+				return err
+			}
+			for k := 0; k < 30 && !w.dead; k++ {
+				if out := w.step(t, noFault); out == "nothing-new" {
+					break
+				}
+			}
+			depth := 1 + rr.Intn(3)
+			w.reorg(depth, depth)
+			w.grow(2)
+			for k := 0; k < 60 && !w.dead; k++ {
+				if out := w.step(t, noFault); out == "nothing-new" && w.taskTop(t) == w.head() {
+					break
+				}
+			}
+			if w.taskTop(t) != w.head() {
+				e.Add(core.Case{Impl: fmt.Sprintf("%s integration: stuck at %d of %d after a reorg of depth %d", kind.name, w.taskTop(t), w.head(), depth), Spec: "converged", Key: fmt.Sprintf("c03-plan-stuck %d %d", ki, rep)})
+			}
+			op, impl := w.caseOp()
+			e.Add(core.Case{Op: op, Impl: impl, Oracles: []string{w.projOracle(t, 1)}, Nontrivial: true, Key: fmt.Sprintf("c03-plan %d %d %d", ki, rep, e.Seed), Tags: []string{"every-plan-notices-a-reorg", "kind=" + kind.name}})
+			w.close()
+		}
+	}
 	// ---- a LARGE batch size while following the head (one recorded position per block), then a reorg
 	// deeper than a few positions: the unwind is bounded by the number of positions (1000), not by blocks
 	for rep := 0; rep < e.N(3, 12) && !e.OverBudget(); rep++ {
